@@ -26,7 +26,7 @@ def describe : Except GenError Groups → String
   | .ok gs => "ok " ++ toString (gs.map fun (kb : Nat × List GroupBinding) => (kb.1, kb.2.map (·.binding)))
   | .error e => "error " ++ shortRepr e
 
-def against (exp : Except GenError Groups) (c : Ctx) (r : Run) : Status :=
+def against (asSpec : Bool) (exp : Except GenError Groups) (c : Ctx) (r : Run) : Status :=
   match exp, r.real with
   | .error (.duplicateBinding n), .err (.duplicateBinding n') _ =>
     if n = n' then .ok else .fail s!"duplicate index: expected {n}, real {n'}"
@@ -42,7 +42,8 @@ def against (exp : Except GenError Groups) (c : Ctx) (r : Run) : Status :=
       else if o.pipelineGroups != gs.map (·.1) then .fail s!"pipeline layout lists the groups as {o.pipelineGroups}, expected {gs.map (·.1)}"
       else .ok
   | .ok _, .panic _ => .skip "later-panic"
-  | .ok _, .okUndecodable w => .fail s!"real output undecodable: {w}"
+  -- a text the fact reader cannot read is a broken correspondence, not something the property's predicate can be evaluated on
+  | .ok _, .okUndecodable w => if asSpec then .skip "real output not readable" else .fail s!"real output undecodable: {w}"
   | e, real => .fail s!"expected {describe e}, real {shortRepr real 200}"
 
 def check (c : Ctx) (r : Run) : Verdict :=
@@ -56,7 +57,7 @@ def check (c : Ctx) (r : Run) : Verdict :=
       | .ok gs => s!"ok{gs.length}"
       | .error (.duplicateBinding _) => "dup"
       | .error _ => "gap"
-    { corr := against model c r, spec := against spec c r, tags := [tag] }
+    { corr := against false model c r, spec := against true spec c r, tags := [tag] }
 
 end CheckC11
 end WgslVerif
